@@ -1,4 +1,8 @@
-use super::{Namespace, TryFromNode, doc::RustDocument, structures::xml_name_to_rust_name};
+use super::{
+    Namespace, TryFromNode,
+    doc::RustDocument,
+    structures::{element::ElementType, xml_name_to_rust_name},
+};
 use crate::{
     error::{WriterError, WriterResult},
     reader::WriteXml,
@@ -97,9 +101,17 @@ impl<'n> TryFromNode<'n> for Field {
             let module = namespace.as_ref().map(|n| n.rust_mod_name.clone());
 
             let xml_name = ref_node.xml_name().ok_or(WriterError::InvalidReference)?;
-            let rust_type = RustFieldType::Other(OtherRustType {
-                name: xml_name_to_rust_name(xml_name),
-                module,
+            // an element of a built-in type has no struct of its own: use the built-in type directly, a type alias
+            // hides it from the yaserde derive macros
+            let builtin = match ref_node.rust_type.try_as_element().map(|e| &e.element_type) {
+                Some(ElementType::RustType(rust_type)) if !rust_type.is_other() => Some(rust_type.clone()),
+                _ => None,
+            };
+            let rust_type = builtin.unwrap_or_else(|| {
+                RustFieldType::Other(OtherRustType {
+                    name: xml_name_to_rust_name(xml_name),
+                    module,
+                })
             });
 
             return Ok(Field {
